@@ -53,7 +53,7 @@
 /** Next argument.  Proceed to parsing the next argument in the argv[] list. */
 #define NEXT_ARG()       D_OPTIONS(("NEXT_ARG()\n")); i++; opt = SPIF_CHARPTR(argv[i]); continue
 /** Next letter.  Proceed to the next letter in a bundled option series. */
-#define NEXT_LETTER()    D_OPTIONS(("NEXT_LETTER(%s)\n", opt)); if (*(opt + 1)) {opt++;} else {NEXT_ARG();} continue
+#define NEXT_LETTER()    D_OPTIONS(("NEXT_LETTER(%s)\n", opt)); if (*opt && *(opt + 1)) {opt++;} else {NEXT_ARG();} continue
 /** Next loop.  Proceed to the next parsing stage (letter or word). */
 #define NEXT_LOOP()      D_OPTIONS(("NEXT_LOOP()\n")); if (islong || val_ptr) {NEXT_ARG();} else {NEXT_LETTER();} NOP
 /** Option parse test.  Returns true IFF the option should be parsed on this pass. */
@@ -625,7 +625,8 @@ spifopt_parse(int argc, char *argv[])
                                        : ""))));
                 }
                 CHECK_BAD();
-                continue;
+                /* Move on; parsing the same option again would never end. */
+                NEXT_LOOP();
             }
             /* Also make sure we know what to do with the value. */
             if (!SPIFOPT_OPT_VALUE(j)) {
